@@ -18,6 +18,12 @@ use petgraph::{Directed, Direction, EdgeType, Undirected};
 use serde::de::DeserializeOwned;
 use serde::Serialize;
 use serde_json::Value;
+use std::any::Any;
+
+#[path = "c17inst.rs"]
+mod inst;
+#[path = "c17laws.rs"]
+mod laws;
 
 // ------------------------------------------------------------------------------------------------
 // the three graph types behind one object-safe interface
@@ -37,6 +43,20 @@ trait Obj {
     fn to_value(&self) -> Option<Value>;
     fn to_text(&self) -> Option<String>;
     fn to_bin(&self) -> Option<Vec<u8>>;
+    /// the laws of the rarely used API (c17laws.rs): `ok` or `VIOLATED <the first law that does not hold>`
+    fn laws(&self) -> String;
+    fn as_any(&self) -> &dyn Any;
+    fn clone_box(&self) -> Box<dyn Obj>;
+    /// `self.clone_from(other)` when `other` is of the same concrete type
+    fn clone_from_obj(&mut self, other: &dyn Obj) -> bool;
+}
+
+fn law_text(r: Result<Option<String>, String>) -> String {
+    match r {
+        Ok(None) => "ok".to_string(),
+        Ok(Some(e)) => format!("VIOLATED {}", e.replace('\n', " ")),
+        Err(msg) => format!("VIOLATED a call panicked: {}", msg.replace('\n', " ")),
+    }
 }
 
 fn bopts() -> impl bincode::Options {
@@ -130,11 +150,12 @@ fn width_of<Ix: IndexType>() -> u32 {
     match <Ix as IndexType>::max().index() {
         255 => 8,
         65535 => 16,
-        _ => 32,
+        4294967295 => 32,
+        _ => 64,
     }
 }
 
-impl<Ty: EdgeType, Ix: IndexType + Serialize> Obj for Graph<i32, i32, Ty, Ix> {
+impl<Ty: EdgeType + Clone + 'static, Ix: IndexType + Serialize + 'static> Obj for Graph<i32, i32, Ty, Ix> {
     fn kind(&self) -> char {
         'G'
     }
@@ -153,6 +174,9 @@ impl<Ty: EdgeType, Ix: IndexType + Serialize> Obj for Graph<i32, i32, Ty, Ix> {
             })),
             "remove_node" => show_opt(catch(|| self.remove_node(NodeIndex::new(ix::<Ix>(a[0]))))),
             "remove_edge" => show_opt(catch(|| self.remove_edge(EdgeIndex::new(ix::<Ix>(a[0]))))),
+            "reverse" => catch(|| self.reverse()).map(|_| self.dump()).unwrap_or("panic".into()),
+            "clear" => catch(|| self.clear()).map(|_| self.dump()).unwrap_or("panic".into()),
+            "clear_edges" => catch(|| self.clear_edges()).map(|_| self.dump()).unwrap_or("panic".into()),
             "check" => catch(|| {
                 // conversion into a StableGraph keeps every index
                 let s: StableGraph<i32, i32, Ty, Ix> = StableGraph::from(Graph::clone(self));
@@ -187,9 +211,27 @@ impl<Ty: EdgeType, Ix: IndexType + Serialize> Obj for Graph<i32, i32, Ty, Ix> {
     fn to_bin(&self) -> Option<Vec<u8>> {
         catch(|| bopts().serialize(self).ok()).flatten()
     }
+    fn laws(&self) -> String {
+        law_text(catch_msg(|| laws::laws_graph(self, &|g| dump_indexed!(g))))
+    }
+    fn as_any(&self) -> &dyn Any {
+        self
+    }
+    fn clone_box(&self) -> Box<dyn Obj> {
+        Box::new(self.clone())
+    }
+    fn clone_from_obj(&mut self, other: &dyn Obj) -> bool {
+        match other.as_any().downcast_ref::<Self>() {
+            Some(o) => {
+                self.clone_from(o);
+                true
+            }
+            None => false,
+        }
+    }
 }
 
-impl<Ty: EdgeType, Ix: IndexType + Serialize> Obj for StableGraph<i32, i32, Ty, Ix> {
+impl<Ty: EdgeType + Clone + 'static, Ix: IndexType + Serialize + 'static> Obj for StableGraph<i32, i32, Ty, Ix> {
     fn kind(&self) -> char {
         'S'
     }
@@ -208,6 +250,9 @@ impl<Ty: EdgeType, Ix: IndexType + Serialize> Obj for StableGraph<i32, i32, Ty, 
             })),
             "remove_node" => show_opt(catch(|| self.remove_node(NodeIndex::new(ix::<Ix>(a[0]))))),
             "remove_edge" => show_opt(catch(|| self.remove_edge(EdgeIndex::new(ix::<Ix>(a[0]))))),
+            "reverse" => catch(|| self.reverse()).map(|_| self.dump()).unwrap_or("panic".into()),
+            "clear" => catch(|| self.clear()).map(|_| self.dump()).unwrap_or("panic".into()),
+            "clear_edges" => catch(|| self.clear_edges()).map(|_| self.dump()).unwrap_or("panic".into()),
             "check" => catch(|| {
                 // both run `check_free_lists` in debug builds
                 self.retain_nodes(|_, _| true);
@@ -245,9 +290,27 @@ impl<Ty: EdgeType, Ix: IndexType + Serialize> Obj for StableGraph<i32, i32, Ty, 
     fn to_bin(&self) -> Option<Vec<u8>> {
         catch(|| bopts().serialize(self).ok()).flatten()
     }
+    fn laws(&self) -> String {
+        law_text(catch_msg(|| laws::laws_stable(self, &|g| dump_indexed!(g))))
+    }
+    fn as_any(&self) -> &dyn Any {
+        self
+    }
+    fn clone_box(&self) -> Box<dyn Obj> {
+        Box::new(self.clone())
+    }
+    fn clone_from_obj(&mut self, other: &dyn Obj) -> bool {
+        match other.as_any().downcast_ref::<Self>() {
+            Some(o) => {
+                self.clone_from(o);
+                true
+            }
+            None => false,
+        }
+    }
 }
 
-impl<Ty: EdgeType + Clone> Obj for GraphMap<i32, i32, Ty> {
+impl<Ty: EdgeType + Clone + 'static> Obj for GraphMap<i32, i32, Ty> {
     fn kind(&self) -> char {
         'M'
     }
@@ -267,6 +330,7 @@ impl<Ty: EdgeType + Clone> Obj for GraphMap<i32, i32, Ty> {
             "add_edge" => show_opt(catch(|| self.add_edge(a[0] as i32, a[1] as i32, a[2] as i32))),
             "remove_node" => catch(|| self.remove_node(a[0] as i32).to_string()).unwrap_or("panic".into()),
             "remove_edge" => show_opt(catch(|| self.remove_edge(a[0] as i32, a[1] as i32))),
+            "clear" => catch(|| self.clear()).map(|_| self.dump()).unwrap_or("panic".into()),
             "check" => catch(|| {
                 let g: Graph<i32, i32, Ty, u32> = self.clone().into_graph();
                 if g.node_count() == self.node_count() && g.edge_count() == self.edge_count() {
@@ -316,6 +380,24 @@ impl<Ty: EdgeType + Clone> Obj for GraphMap<i32, i32, Ty> {
     fn to_bin(&self) -> Option<Vec<u8>> {
         catch(|| bopts().serialize(self).ok()).flatten()
     }
+    fn laws(&self) -> String {
+        law_text(catch_msg(|| laws::laws_map(self)))
+    }
+    fn as_any(&self) -> &dyn Any {
+        self
+    }
+    fn clone_box(&self) -> Box<dyn Obj> {
+        Box::new(self.clone())
+    }
+    fn clone_from_obj(&mut self, other: &dyn Obj) -> bool {
+        match other.as_any().downcast_ref::<Self>() {
+            Some(o) => {
+                self.clone_from(o);
+                true
+            }
+            None => false,
+        }
+    }
 }
 
 #[derive(Clone, Copy, PartialEq, Debug)]
@@ -344,9 +426,11 @@ fn make(t: Target) -> Box<dyn Obj> {
     match (t.directed, t.w) {
         (true, 8) => mk!(Directed, u8),
         (true, 16) => mk!(Directed, u16),
+        (true, 64) => mk!(Directed, usize),
         (true, _) => mk!(Directed, u32),
         (false, 8) => mk!(Undirected, u8),
         (false, 16) => mk!(Undirected, u16),
+        (false, 64) => mk!(Undirected, usize),
         (false, _) => mk!(Undirected, u32),
     }
 }
@@ -380,9 +464,11 @@ fn deser(t: Target, inp: &Input) -> Option<Result<Box<dyn Obj>, String>> {
     catch(|| match (t.directed, t.w) {
         (true, 8) => de!(Directed, u8),
         (true, 16) => de!(Directed, u16),
+        (true, 64) => de!(Directed, usize),
         (true, _) => de!(Directed, u32),
         (false, 8) => de!(Undirected, u8),
         (false, 16) => de!(Undirected, u16),
+        (false, 64) => de!(Undirected, usize),
         (false, _) => de!(Undirected, u32),
     })
 }
@@ -603,6 +689,7 @@ fn put_ix(out: &mut Vec<u8>, x: u64, w: u32) -> Option<()> {
     match w {
         8 => out.push(u8::try_from(x).ok()?),
         16 => out.extend_from_slice(&u16::try_from(x).ok()?.to_le_bytes()),
+        64 => out.extend_from_slice(&x.to_le_bytes()),
         _ => out.extend_from_slice(&u32::try_from(x).ok()?.to_le_bytes()),
     }
     Some(())
@@ -667,6 +754,7 @@ impl Rd<'_> {
         Some(match w {
             8 => self.take(1)?[0] as u64,
             16 => u16::from_le_bytes(self.take(2)?.try_into().ok()?) as u64,
+            64 => self.u64()?,
             _ => self.u32()? as u64,
         })
     }
@@ -724,12 +812,17 @@ struct Case<'a> {
     rng: Rng,
     next_slot: usize,
     jv_sorted: bool,
+    /// the latest loaded graph of each target type, kept for `clone_from` into a graph with arbitrary prior content
+    stash: Vec<(Target, usize, Box<dyn Obj>)>,
+    /// statistics of the corner inputs reached (printed as a `stat` line at the end of the case)
+    stat: Vec<&'static str>,
 }
 
 fn end_of(w: u32) -> u64 {
     match w {
         8 => 255,
         16 => 65535,
+        64 => u64::MAX,
         _ => 4294967295,
     }
 }
@@ -745,7 +838,7 @@ impl Case<'_> {
         if g.kind() == 'M' {
             return if !live.is_empty() && !self.rng.chance(13) { *self.rng.pick(&live) } else { self.rng.range(-4, 12) };
         }
-        let end = end_of(g.width()) as i64;
+        let end = end_of(g.width()).min(i64::MAX as u64) as i64;
         let bound = g.bounds().0 as i64;
         if !live.is_empty() && !self.rng.chance(13) {
             *self.rng.pick(&live)
@@ -760,7 +853,7 @@ impl Case<'_> {
 
     fn edge_arg(&mut self, g: &dyn Obj) -> i64 {
         let live = g.edges();
-        let end = end_of(g.width()) as i64;
+        let end = end_of(g.width()).min(i64::MAX as u64) as i64;
         let bound = g.bounds().1 as i64;
         if !live.is_empty() && !self.rng.chance(13) {
             self.rng.pick(&live).0
@@ -776,6 +869,22 @@ impl Case<'_> {
     /// one random mutating operation on slot `k`; returns whether it was a `remove_node` (after which the edge
     /// indices of a `Graph` are re-read from a dump)
     fn random_op(&mut self, k: usize, g: &mut dyn Obj, mix: &[u32; 4]) -> bool {
+        if self.rng.chance(2) {
+            // rarely used whole-graph operations: reverse (then remove), clear_edges, clear (then reuse); the clearing
+            // ones not in a removal-heavy tail, so that the graph is built up again before it is serialized
+            let may_clear = mix[0] >= 25;
+            let name = if g.kind() == 'M' {
+                if may_clear { "clear" } else { "" }
+            } else if may_clear {
+                *self.rng.pick(&["reverse", "reverse", "reverse", "reverse", "clear_edges", "clear"])
+            } else {
+                "reverse"
+            };
+            if !name.is_empty() {
+                self.xop(k, g, name);
+                return false;
+            }
+        }
         let which = self.rng.weighted(mix);
         let (name, args): (&str, Vec<i64>) = match which {
             0 => ("add_node", vec![self.weight()]),
@@ -809,16 +918,63 @@ impl Case<'_> {
         name == "remove_node"
     }
 
+    /// `reverse` / `clear` / `clear_edges`: the answer is the observation afterwards
+    fn xop(&mut self, k: usize, g: &mut dyn Obj, name: &'static str) {
+        let ans = g.op(name, &[]);
+        self.ctx.line(&format!("x {} {}", k, name), &ans);
+        self.stat.push(name);
+    }
+
+    fn laws(&mut self, k: usize, g: &dyn Obj) {
+        let a = g.laws();
+        self.ctx.line(&format!("law api {} {}", k, g.kind()), &a);
+    }
+
     fn dump(&mut self, k: usize, g: &dyn Obj) {
         self.ctx.line(&format!("dump {}", k), &g.dump());
     }
 
-    /// further use of a loaded graph: self check, >= 6 mutating operations with dumps, self check
-    fn post_use(&mut self, k: usize, g: &mut dyn Obj) {
+    /// further use of a loaded graph: self check, the laws of the rarely used API, `clone` / `clone_from` (then both
+    /// are mutated), >= 6 mutating operations with dumps (rarely `reverse` / `clear_edges` / `clear`), self check, the
+    /// laws again, and sometimes a second serialization of the graph as it is then, loaded once more
+    fn post_use(&mut self, t: Target, k: usize, g: &mut dyn Obj, depth: u32) {
         let a = g.op("check", &[]);
         self.ctx.line(&format!("op {} check", k), &a);
-        let n = 6 + self.rng.below(5);
         let big = g.bounds().0 > 60 || g.bounds().1 > 60;
+        if !big || self.rng.chance(25) {
+            self.laws(k, g);
+        }
+        // clone_from into a graph with arbitrary prior content (the previous graph loaded into this type), then both
+        // are used; clone, then the clone is used
+        if !big && self.rng.chance(45) {
+            if let Some(pos) = self.stash.iter().position(|x| x.0 == t) {
+                let (_, j, mut h) = self.stash.remove(pos);
+                if h.clone_from_obj(g) {
+                    let d = h.dump();
+                    self.ctx.line(&format!("clonefrom {} {}", k, j), &d);
+                    self.stat.push("clone_from");
+                    for _ in 0..2 {
+                        self.random_op(j, h.as_mut(), &[30, 30, 20, 20]);
+                        self.dump(j, h.as_ref());
+                    }
+                    self.dump(k, g);
+                }
+            }
+        }
+        if !big && self.rng.chance(20) {
+            let j = self.next_slot;
+            self.next_slot += 1;
+            let mut h = g.clone_box();
+            let d = h.dump();
+            self.ctx.line(&format!("clone {} {}", k, j), &d);
+            self.stat.push("clone");
+            for _ in 0..2 {
+                self.random_op(j, h.as_mut(), &[30, 30, 20, 20]);
+                self.dump(j, h.as_ref());
+            }
+            self.dump(k, g);
+        }
+        let n = 6 + self.rng.below(5);
         for i in 0..n {
             // adds first, so that vacant indices are reused before anything else happens
             let mix: [u32; 4] = if i < 3 { [40, 40, 10, 10] } else { [25, 30, 20, 25] };
@@ -829,10 +985,66 @@ impl Case<'_> {
         }
         let a = g.op("check", &[]);
         self.ctx.line(&format!("op {} check", k), &a);
+        if !big && self.rng.chance(50) {
+            self.laws(k, g);
+        }
+        // the graph as it is now goes through a serializer once more (a loaded graph is as good as a built one)
+        if !big && depth == 0 && self.rng.chance(30) {
+            self.stat.push("second-generation");
+            self.reserialize(t, k, g);
+        }
+    }
+
+    /// serialize slot `k` (a loaded and then mutated graph) through one route and load the stream into its own type
+    fn reserialize(&mut self, t: Target, k: usize, g: &dyn Obj) {
+        let tw = if t.kind == 'M' { 32 } else { t.w };
+        match self.rng.below(3) {
+            0 => {
+                let val = g.to_value();
+                let w = val.as_ref().and_then(|v| wire_of_value(v)).map(|x| x.0);
+                self.ctx.line(&format!("ser {} jv", k), &match &w {
+                    Some(w) => format!("ok {}", w.show()),
+                    None => if val.is_some() { "undecodable".to_string() } else { "panic".to_string() },
+                });
+                if let (Some(v), Some(w)) = (&val, &w) {
+                    let ord = value_order(v);
+                    self.feed(t, "jv", &Input::Val(v), Some((w, ord)), Some(k), true, 1);
+                }
+            }
+            1 => {
+                let text = g.to_text();
+                let w = text.as_ref().and_then(|t| serde_json::from_str::<Value>(t).ok()).and_then(|v| wire_of_value(&v)).map(|x| x.0);
+                self.ctx.line(&format!("ser {} js", k), &match &text {
+                    Some(t) if !t.chars().any(|ch| ch.is_whitespace()) => match &w {
+                        Some(w) => format!("ok {} {}", t, w.show()),
+                        None => format!("ok {}", t),
+                    },
+                    Some(_) => "text-with-white-space".to_string(),
+                    None => "panic".to_string(),
+                });
+                if let (Some(s), Some(w)) = (&text, &w) {
+                    self.feed(t, "js", &Input::Text(s), Some((w, "nhpe".into())), Some(k), true, 1);
+                }
+            }
+            _ => {
+                let bin = g.to_bin();
+                self.ctx.line(&format!("ser {} bin", k), &match &bin {
+                    Some(b) => format!("ok {}", hex(b)),
+                    None => "panic".to_string(),
+                });
+                if let Some(b) = &bin {
+                    if let Some((w, used)) = wire_of_bin(b, tw) {
+                        if used == b.len() {
+                            self.feed(t, "bin", &Input::Bin(b), Some((&w, "nhpe".into())), Some(k), true, 1);
+                        }
+                    }
+                }
+            }
+        }
     }
 
     /// feed one stream to one target; emits a `de` line when the wire value is known, else a `blind` line
-    fn feed(&mut self, t: Target, fmt: &str, inp: &Input, wire: Option<(&Wire, String)>, rt: Option<usize>, use_it: bool) {
+    fn feed(&mut self, t: Target, fmt: &str, inp: &Input, wire: Option<(&Wire, String)>, rt: Option<usize>, use_it: bool, depth: u32) {
         // the bytes / text that are fed, for the driver's transport check (the modelled readers of Spec/SerdeText.lean):
         // bincode always; JSON text when it is in the canonical field order and free of white space
         let src = match inp {
@@ -857,7 +1069,12 @@ impl Case<'_> {
                 if let Some(mut g) = obj {
                     // a structure with runaway lists is not used further (operations on it may not terminate)
                     if use_it && !ans.contains("RUNAWAY") {
-                        self.post_use(k, g.as_mut());
+                        self.post_use(t, k, g.as_mut(), depth);
+                        // kept: the next graph loaded into this type is `clone_from`ed into it
+                        self.stash.retain(|x| x.0 != t);
+                        if g.bounds().0 <= 60 && g.bounds().1 <= 60 {
+                            self.stash.push((t, k, g));
+                        }
                     }
                 }
             }
@@ -870,20 +1087,20 @@ impl Case<'_> {
         let text = wire_to_json(w, order);
         if let Ok(v) = serde_json::from_str::<Value>(&text) {
             let ord = value_order(&v);
-            self.feed(t, "jv", &Input::Val(&v), Some((w, ord)), rt, use_it);
+            self.feed(t, "jv", &Input::Val(&v), Some((w, ord)), rt, use_it, 0);
         }
     }
 
     fn feed_wire_text(&mut self, t: Target, w: &Wire, order: &str, rt: Option<usize>, use_it: bool) {
         let text = wire_to_json(w, order);
-        self.feed(t, "js", &Input::Text(&text), Some((w, order.to_string())), rt, use_it);
+        self.feed(t, "js", &Input::Text(&text), Some((w, order.to_string())), rt, use_it, 0);
     }
 
     fn feed_wire_bin(&mut self, t: Target, w: &Wire, rt: Option<usize>, use_it: bool) -> bool {
         let tw = if t.kind == 'M' { 32 } else { t.w };
         match wire_to_bin(w, tw) {
             Some(bytes) => {
-                self.feed(t, "bin", &Input::Bin(&bytes), Some((w, "nhpe".into())), rt, use_it);
+                self.feed(t, "bin", &Input::Bin(&bytes), Some((w, "nhpe".into())), rt, use_it, 0);
                 true
             }
             None => false,
@@ -898,17 +1115,82 @@ impl Case<'_> {
             Some((w, ord))
         });
         match known {
-            Some((w, ord)) => self.feed(t, "js", &Input::Text(text), Some((&w, ord)), None, true),
-            None => self.feed(t, "js", &Input::Text(text), None, None, false),
+            Some((w, ord)) => self.feed(t, "js", &Input::Text(text), Some((&w, ord)), None, true, 0),
+            None => self.feed(t, "js", &Input::Text(text), None, None, false, 0),
         }
     }
 
     fn feed_any_bin(&mut self, t: Target, bytes: &[u8]) {
         let tw = if t.kind == 'M' { 32 } else { t.w };
         match wire_of_bin(bytes, tw) {
-            Some((w, _)) => self.feed(t, "bin", &Input::Bin(bytes), Some((&w, "nhpe".into())), None, true),
-            None => self.feed(t, "bin", &Input::Bin(bytes), None, None, false),
+            Some((w, _)) => self.feed(t, "bin", &Input::Bin(bytes), Some((&w, "nhpe".into())), None, true, 0),
+            None => self.feed(t, "bin", &Input::Bin(bytes), None, None, false, 0),
         }
+    }
+
+    /// the corner inputs this case reached (a comment line for the statistics; the driver ignores `stat` lines)
+    fn finish(&mut self) {
+        let mut v = self.stat.clone();
+        v.sort();
+        v.dedup();
+        let txt = list(v.iter());
+        self.ctx.line("stat", &txt);
+    }
+
+    /// what the mirrored `i32` instantiation answers for this wire value: `Ok(dump)` / `Err(error class)`
+    fn base_answer(&mut self, t: Target, w: &Wire, order: &str) -> Result<String, String> {
+        let text = wire_to_json(w, order);
+        match deser(t, &Input::Text(&text)) {
+            None => Err("panic".into()),
+            Some(Err(msg)) => Err(classify(&msg)),
+            Some(Ok(g)) => Ok(g.dump()),
+        }
+    }
+
+    /// one randomly chosen instantiation that the mirrored part does not use, on the wire value `w`
+    fn inst_laws(&mut self, w: &Wire, order: &str) {
+        let directed = match w.prop {
+            'd' => !self.rng.chance(8),
+            _ => self.rng.chance(8),
+        };
+        macro_rules! go {
+            ($name:expr, $kind:expr, $width:expr, $N:ty, $E:ty, $T:ident < $($p:ty),* >, $dump:path) => {{
+                let norm = Wire {
+                    nodes: w.nodes.iter().map(|x| <$N as inst::Wt>::norm(*x as i32) as i64).collect(),
+                    holes: w.holes.clone(),
+                    prop: w.prop,
+                    edges: w.edges.iter().map(|e| e.map(|(a, b, x)| (a, b, <$E as inst::Wt>::norm(x as i32) as i64))).collect(),
+                };
+                let base = self.base_answer(Target { kind: $kind, directed, w: $width }, &norm, order);
+                let text = inst::wire_json::<$N, $E>(&w.nodes, &w.holes, w.prop, &w.edges, order);
+                let r = if directed {
+                    law_text(catch_msg(|| inst::inst_law::<$T<$N, $E, Directed $(, $p)*>, _>(&text, &base, |g| $dump(g))))
+                } else {
+                    law_text(catch_msg(|| inst::inst_law::<$T<$N, $E, Undirected $(, $p)*>, _>(&text, &base, |g| $dump(g))))
+                };
+                self.ctx.line(&format!("law inst {} {} ord={} {}", $name, if directed { "d" } else { "u" }, order, w.show()), &r);
+            }};
+        }
+        type Fx = fxhash::FxBuildHasher;
+        type Ah = ahash::RandomState;
+        type Dh = std::hash::BuildHasherDefault<std::collections::hash_map::DefaultHasher>;
+        // a wire whose numbers do not fit the index type cannot be printed for a narrower instantiation: JSON only
+        match self.rng.below(13) {
+            0 => go!("Graph<(),(),usize>", 'G', 64, (), (), Graph<usize>, inst::dump_g),
+            1 => go!("Graph<f32,f64,u16>", 'G', 16, f32, f64, Graph<u16>, inst::dump_g),
+            2 => go!("Graph<String,Option<i8>,u8>", 'G', 8, String, Option<i8>, Graph<u8>, inst::dump_g),
+            3 => go!("Graph<(i16,u8),Vec<u8>,u32>", 'G', 32, (i16, u8), Vec<u8>, Graph<u32>, inst::dump_g),
+            4 => go!("StableGraph<(),(),u8>", 'S', 8, (), (), StableGraph<u8>, inst::dump_s),
+            5 => go!("StableGraph<f64,String,usize>", 'S', 64, f64, String, StableGraph<usize>, inst::dump_s),
+            6 => go!("StableGraph<Option<i8>,(i16,u8),u16>", 'S', 16, Option<i8>, (i16, u8), StableGraph<u16>, inst::dump_s),
+            7 => go!("StableGraph<i64,u64,u32>", 'S', 32, i64, u64, StableGraph<u32>, inst::dump_s),
+            8 => go!("GraphMap<i32,f32,Fx>", 'M', 32, i32, f32, GraphMap<Fx>, inst::dump_m),
+            9 => go!("GraphMap<u64,(),ahash>", 'M', 32, u64, (), GraphMap<Ah>, inst::dump_m),
+            10 => go!("GraphMap<(i8,bool),String,DefaultHasher>", 'M', 32, (i8, bool), String, GraphMap<Dh>, inst::dump_m),
+            11 => go!("GraphMap<char,Option<i8>,RandomState>", 'M', 32, char, Option<i8>, GraphMap<std::collections::hash_map::RandomState>, inst::dump_m),
+            _ => go!("GraphMap<i32,i32,Fx>", 'M', 32, i32, i32, GraphMap<Fx>, inst::dump_m),
+        }
+        self.stat.push("inst");
     }
 
     fn random_order(&mut self) -> String {
@@ -940,7 +1222,7 @@ impl Case<'_> {
         for _ in 0..(1 + self.rng.below(2)) {
             let total = w.total() as u64;
             let some_edges: Vec<usize> = (0..w.edges.len()).filter(|i| w.edges[*i].is_some()).collect();
-            match self.rng.below(16) {
+            match self.rng.below(21) {
                 0 | 1 => {
                     // an edge endpoint becomes a declared hole / a new hole is declared at an endpoint
                     if let Some(&i) = some_edges.get(self.rng.below(some_edges.len().max(1))) {
@@ -970,7 +1252,7 @@ impl Case<'_> {
                             0 => total,
                             1 => total + 1 + self.rng.below(3) as u64,
                             2 => end,
-                            3 => end + 1 + self.rng.below(40) as u64,
+                            3 => end.saturating_add(1 + self.rng.below(40) as u64),
                             _ => end - 1,
                         };
                         w.edges[i] = Some(if self.rng.chance(50) { (bad, b, x) } else { (a, bad, x) });
@@ -1003,7 +1285,7 @@ impl Case<'_> {
                         1 => total + 1,
                         2 => total + 2 + self.rng.below(4) as u64,
                         3 => end,
-                        _ => end + 1 + self.rng.below(9) as u64,
+                        _ => end.saturating_add(1 + self.rng.below(9) as u64),
                     };
                     if self.rng.chance(50) {
                         w.holes.push(h);
@@ -1107,11 +1389,85 @@ impl Case<'_> {
                         }
                     }
                 }
+                16 | 17 => {
+                    // BOTH endpoints of an edge are the same position that is not a node: a self-loop on a node that
+                    // does not exist (one past the end, far beyond, the index type's end value, a declared hole, a
+                    // freshly vacated position); on an existing edge or on a new one
+                    self.stat.push("mut:absent-self-loop");
+                    let bad = match self.rng.below(7) {
+                        0 | 1 => total,
+                        2 => total + 1 + self.rng.below(3) as u64,
+                        3 => end,
+                        4 => end - 1,
+                        5 if !w.holes.is_empty() => *self.rng.pick(&w.holes),
+                        _ => {
+                            // vacate a live position and put the loop there
+                            let v = self.rng.below(total as usize + 1) as u64;
+                            if !w.holes.contains(&v) && v < total {
+                                let rank = (0..v).filter(|p| !w.holes.contains(p)).count();
+                                if rank < w.nodes.len() {
+                                    w.nodes.remove(rank);
+                                    w.holes.push(v);
+                                    w.holes.sort();
+                                }
+                            }
+                            v
+                        }
+                    };
+                    let x = self.weight();
+                    match some_edges.get(self.rng.below(some_edges.len().max(1))) {
+                        Some(&i) if self.rng.chance(50) => w.edges[i] = Some((bad, bad, x)),
+                        _ => {
+                            let i = self.rng.below(w.edges.len() + 1);
+                            w.edges.insert(i, Some((bad, bad, x)));
+                        }
+                    }
+                }
+                18 => {
+                    // self-loops together with parallel edges, in both orientations, on one pair of positions
+                    self.stat.push("mut:loops+parallels");
+                    let t = w.total().max(1);
+                    let a = self.rng.below(t) as u64;
+                    let b = self.rng.below(t) as u64;
+                    for (p, q) in [(a, b), (a, b), (b, a), (a, a), (a, a), (b, b)] {
+                        if self.rng.chance(70) {
+                            let i = self.rng.below(w.edges.len() + 1);
+                            w.edges.insert(i, Some((p, q, self.weight())));
+                        }
+                    }
+                }
+                19 => {
+                    // the same node weight given twice or more (one key of a GraphMap), its edges then coincide
+                    self.stat.push("mut:duplicate-node");
+                    if w.nodes.len() >= 2 {
+                        let i = self.rng.below(w.nodes.len());
+                        for _ in 0..(1 + self.rng.below(2)) {
+                            let j = self.rng.below(w.nodes.len());
+                            w.nodes[j] = w.nodes[i];
+                        }
+                    } else {
+                        w.nodes.push(5);
+                        w.nodes.push(5);
+                    }
+                }
+                20 => {
+                    // weights at the ends of their type
+                    self.stat.push("mut:extreme-weight");
+                    let ext = [i32::MIN as i64, i32::MAX as i64, -1, 0];
+                    if !w.nodes.is_empty() {
+                        let i = self.rng.below(w.nodes.len());
+                        w.nodes[i] = *self.rng.pick(&ext);
+                    }
+                    if let Some(&i) = some_edges.get(self.rng.below(some_edges.len().max(1))) {
+                        let (a, b, _) = w.edges[i].unwrap();
+                        w.edges[i] = Some((a, b, *self.rng.pick(&ext)));
+                    }
+                }
                 _ => {
                     // swap two edges' endpoints / reverse an edge
                     if let Some(&i) = some_edges.get(self.rng.below(some_edges.len().max(1))) {
                         let (a, b, x) = w.edges[i].unwrap();
-                        w.edges[i] = Some((b, a, x + 1));
+                        w.edges[i] = Some((b, a, (x + 1).min(i32::MAX as i64)));
                     }
                 }
             }
@@ -1220,7 +1576,7 @@ impl Case<'_> {
 fn pick_target(rng: &mut Rng, base: Target, same_dir_pct: u32) -> Target {
     let kind = *rng.pick(&['G', 'S', 'S', 'G', 'M']);
     let directed = if rng.chance(same_dir_pct) { base.directed } else { !base.directed };
-    let w = if kind == 'M' { 32 } else { *rng.pick(&[8u32, 16, 32]) };
+    let w = if kind == 'M' { 32 } else { *rng.pick(&[8u32, 8, 16, 16, 32, 32, 64]) };
     Target { kind, directed, w }
 }
 
@@ -1282,28 +1638,37 @@ pub fn run(ctx: &mut Ctx, case: u64) {
 fn run_inner(ctx: &mut Ctx, case: u64) {
     let mut rng = Rng::for_case(ctx.seed, "C17", case);
     let thorough = ctx.tier_thorough;
-    // family: 0 = ordinary history, 1 = u8 capacity, 2 = tiny / empty
+    // family: 0 = ordinary history, 1 = u8 capacity, 2 = tiny / empty, 3 = hand-shaped corners (the empty graph, a
+    // single node, one node with parallel self-loops, two nodes with parallel edges in both orientations, a graph
+    // that is cleared and reused, one that is reversed and then loses a node), 4 = u16 at its capacity (streams only)
     let family = match rng.below(100) {
         0..=3 => 1,
         4..=9 => 2,
+        10..=14 => 3,
+        15 if thorough && case % 8 == 0 => 4,
         _ => 0,
     };
-    let kind = if family == 1 { *rng.pick(&['G', 'S']) } else { *rng.pick(&['S', 'S', 'S', 'G', 'G', 'M']) };
+    let kind = if family == 1 { *rng.pick(&['G', 'S']) } else if family == 4 { 'S' } else { *rng.pick(&['S', 'S', 'S', 'G', 'G', 'M']) };
     let directed = rng.chance(55);
     let w = if kind == 'M' {
         32
     } else if family == 1 {
         8
+    } else if family == 4 {
+        16
     } else {
-        *rng.pick(&[8u32, 8, 16, 32])
+        *rng.pick(&[8u32, 8, 8, 16, 16, 32, 32, 64])
     };
     let base = Target { kind, directed, w };
-    ctx.raw(&format!("case {} family={} {}", case, family, base.words().replace(' ', "")));
+    // the build profile is part of the case: `check_free_lists`, the `collect_seq_with_length` assertion and the
+    // overflow checks exist in debug builds only
+    let profile = if cfg!(debug_assertions) { "debug" } else { "release" };
+    ctx.raw(&format!("case {} family={} {} profile={}", case, family, base.words().replace(' ', ""), profile));
     let jv_sorted = {
         let v: Value = serde_json::from_str("{\"nodes\":[],\"edges\":[]}").unwrap();
         value_order(&v) == "en"
     };
-    let mut c = Case { ctx, rng, next_slot: 1, jv_sorted };
+    let mut c = Case { ctx, rng, next_slot: 1, jv_sorted, stash: vec![], stat: vec![] };
     let _ = c.jv_sorted;
     let mut g = make(base);
     c.ctx.line(&format!("new 0 {}", base.words()), "ok");
@@ -1351,17 +1716,104 @@ fn run_inner(ctx: &mut Ctx, case: u64) {
             }
             c.dump(0, g.as_ref());
         }
+        3 => {
+            // hand-shaped corners; every step is an ordinary protocol line
+            let shape = c.rng.below(6);
+            c.stat.push(["shape:empty", "shape:single-node", "shape:parallel-self-loops", "shape:parallel-both-ways", "shape:clear-reuse", "shape:reverse-remove"][shape]);
+            let op = |c: &mut Case, g: &mut dyn Obj, name: &str, args: &[i64]| {
+                let a = g.op(name, args);
+                c.ctx.line(&format!("op 0 {} {}", name, args.iter().map(|x| x.to_string()).collect::<Vec<_>>().join(" ")).trim_end().to_string(), &a);
+                c.dump(0, g);
+            };
+            // node names: indices for Graph / StableGraph, keys for GraphMap (the same numbers)
+            match shape {
+                0 => {}
+                1 => op(&mut c, g.as_mut(), "add_node", &[0]),
+                2 => {
+                    op(&mut c, g.as_mut(), "add_node", &[0]);
+                    for x in 0..(2 + c.rng.below(3) as i64) {
+                        op(&mut c, g.as_mut(), "add_edge", &[0, 0, x]);
+                    }
+                }
+                3 => {
+                    op(&mut c, g.as_mut(), "add_node", &[0]);
+                    op(&mut c, g.as_mut(), "add_node", &[1]);
+                    for (a, b) in [(0, 1), (1, 0), (0, 1), (1, 1), (0, 0), (1, 0)] {
+                        if c.rng.chance(80) {
+                            let x = c.weight();
+                            op(&mut c, g.as_mut(), "add_edge", &[a, b, x]);
+                        }
+                    }
+                }
+                4 => {
+                    for i in 0..4 {
+                        op(&mut c, g.as_mut(), "add_node", &[i]);
+                    }
+                    for (a, b) in [(0, 1), (1, 2), (2, 2), (3, 0)] {
+                        op(&mut c, g.as_mut(), "add_edge", &[a, b, 1]);
+                    }
+                    if base.kind != 'M' && c.rng.chance(50) {
+                        op(&mut c, g.as_mut(), "remove_node", &[1]);
+                    }
+                    c.xop(0, g.as_mut(), "clear");
+                    for i in 0..3 {
+                        op(&mut c, g.as_mut(), "add_node", &[i + 5]);
+                    }
+                    let (p, q) = if base.kind == 'M' { (5, 7) } else { (0, 2) };
+                    op(&mut c, g.as_mut(), "add_edge", &[p, q, 2]);
+                    op(&mut c, g.as_mut(), "add_edge", &[q, q, 3]);
+                }
+                _ => {
+                    for i in 0..4 {
+                        op(&mut c, g.as_mut(), "add_node", &[i]);
+                    }
+                    for (a, b) in [(0, 1), (1, 2), (2, 2), (3, 0), (0, 1)] {
+                        op(&mut c, g.as_mut(), "add_edge", &[a, b, a + b]);
+                    }
+                    if base.kind != 'M' {
+                        op(&mut c, g.as_mut(), "remove_node", &[3]);
+                        op(&mut c, g.as_mut(), "remove_edge", &[1]);
+                        c.xop(0, g.as_mut(), "reverse");
+                        op(&mut c, g.as_mut(), "remove_node", &[1]);
+                        op(&mut c, g.as_mut(), "add_node", &[9]);
+                        op(&mut c, g.as_mut(), "add_edge", &[0, 2, 4]);
+                        c.xop(0, g.as_mut(), "reverse");
+                        if c.rng.chance(50) {
+                            c.xop(0, g.as_mut(), "clear_edges");
+                            op(&mut c, g.as_mut(), "add_edge", &[2, 0, 5]);
+                        }
+                    } else {
+                        op(&mut c, g.as_mut(), "remove_node", &[3]);
+                        op(&mut c, g.as_mut(), "remove_edge", &[1, 0]);
+                    }
+                }
+            }
+        }
+        4 => {
+            // a small u16 StableGraph; the capacity streams are made from its wire value below
+            for i in 0..3 {
+                let a = g.op("add_node", &[i]);
+                c.ctx.line(&format!("op 0 add_node {}", i), &a);
+            }
+            let a = g.op("add_edge", &[0, 2, 1]);
+            c.ctx.line("op 0 add_edge 0 2 1", &a);
+            c.dump(0, g.as_ref());
+        }
         _ => {
             let nops = if family == 2 { c.rng.below(4) } else { 6 + c.rng.below(if thorough { 60 } else { 34 }) };
-            let warm = if family == 2 { 0 } else { 2 + c.rng.below(4) };
+            let warm = if family == 2 { 0 } else { 3 + c.rng.below(5) };
+            // half of the histories end in a removal-heavy tail (vacancies, also trailing ones, survive into the
+            // serialization), the others keep growing so that the graph that is serialized has edges
+            let heavy_tail = c.rng.chance(50);
             for i in 0..nops {
                 let mix: [u32; 4] = if i < warm {
-                    [80, 20, 0, 0]
+                    [75, 25, 0, 0]
                 } else if i * 3 < nops * 2 {
-                    [25, 40, 13, 22]
-                } else {
-                    // a removal-heavy tail: vacancies (also trailing ones) survive into the serialization
+                    [27, 45, 11, 17]
+                } else if heavy_tail {
                     [12, 22, 30, 36]
+                } else {
+                    [22, 44, 14, 20]
                 };
                 c.random_op(0, g.as_mut(), &mix);
                 c.dump(0, g.as_ref());
@@ -1387,6 +1839,15 @@ fn run_inner(ctx: &mut Ctx, case: u64) {
     }
     let a = g.op("check", &[]);
     c.ctx.line("op 0 check", &a);
+    if (g.bounds().0 <= 60 && g.bounds().1 <= 60) || c.rng.chance(30) {
+        c.laws(0, g.as_ref());
+    }
+    // the serde impls of NodeIndex / EdgeIndex / Direction on their own
+    {
+        let vals: Vec<usize> = (0..3).map(|_| c.rng.below(70000)).collect();
+        let r = law_text(catch_msg(|| inst::index_law(&vals)));
+        c.ctx.line(&format!("law index-serde {}", list(vals.iter())), &r);
+    }
 
     // ---- serialization: the wire value through three routes
     let src_w = if base.kind == 'M' { 32 } else { base.w };
@@ -1430,6 +1891,29 @@ fn run_inner(ctx: &mut Ctx, case: u64) {
         None => return,
     };
 
+    if family == 4 {
+        // u16 at and one past its capacity: 65535 / 65536 nodes or edges (the streams only: they are refused; at exactly
+        // 65535 that is the recorded finding D20)
+        for (nn, ne) in [(65535usize, 1usize), (65536, 1), (3, 65535), (3, 65536)] {
+            let mut m = wire.clone();
+            while m.nodes.len() < nn {
+                m.nodes.push((m.nodes.len() % 7) as i64);
+            }
+            while m.edges.len() < ne {
+                m.edges.push(Some((0, 2, 1)));
+            }
+            let t = Target { kind: *c.rng.pick(&['S', 'G']), directed, w: 16 };
+            c.stat.push("u16-capacity-stream");
+            if c.rng.chance(50) {
+                c.feed_wire_bin(t, &m, None, false);
+            } else {
+                c.feed_wire_text(t, &m, "nhpe", None, false);
+            }
+        }
+        c.finish();
+        return;
+    }
+
     // ---- round trips into the same type and cross-loading
     let big = wire.total() > 60 || wire.edges.len() > 60;
     let same = base;
@@ -1450,24 +1934,43 @@ fn run_inner(ctx: &mut Ctx, case: u64) {
             0 => {
                 if let Some(v) = &val {
                     let ord = value_order(v);
-                    c.feed(t, "jv", &Input::Val(v), Some((&wire, ord)), Some(0), true);
+                    c.feed(t, "jv", &Input::Val(v), Some((&wire, ord)), Some(0), true, 0);
                 }
             }
             1 => {
                 if let Some(s) = &text {
-                    c.feed(t, "js", &Input::Text(s), Some((&wire, "nhpe".into())), Some(0), true);
+                    c.feed(t, "js", &Input::Text(s), Some((&wire, "nhpe".into())), Some(0), true, 0);
                 }
             }
             _ => {
                 let tw = if t.kind == 'M' { 32 } else { t.w };
                 if tw == src_w {
                     if let Some(b) = &bin {
-                        c.feed(t, "bin", &Input::Bin(b), Some((&wire, "nhpe".into())), Some(0), true);
+                        c.feed(t, "bin", &Input::Bin(b), Some((&wire, "nhpe".into())), Some(0), true, 0);
                     }
                 } else if !c.feed_wire_bin(t, &wire, Some(0), true) {
                     c.feed_wire_text(t, &wire, "nhpe", Some(0), true);
                 }
             }
+        }
+    }
+    // ---- other shapes of the same stream: pretty-printed JSON text (white space), bincode with trailing bytes
+    if !big {
+        if let Some(v) = &val {
+            if let Ok(pretty) = serde_json::to_string_pretty(v) {
+                if let Some(ord) = key_order(&pretty) {
+                    c.stat.push("pretty-json");
+                    c.feed(same, "js", &Input::Text(&pretty), Some((&wire, ord)), Some(0), false, 0);
+                }
+            }
+        }
+        if let Some(b) = &bin {
+            let mut b2 = b.clone();
+            for _ in 0..(1 + c.rng.below(6)) {
+                b2.push(c.rng.below(256) as u8);
+            }
+            c.stat.push("bincode-trailing-bytes");
+            c.feed(same, "bin", &Input::Bin(&b2), Some((&wire, "nhpe".into())), Some(0), false, 0);
         }
     }
     if big && !thorough {
@@ -1479,6 +1982,7 @@ fn run_inner(ctx: &mut Ctx, case: u64) {
                 c.feed_wire_text(t, &m, "nhpe", None, false);
             }
         }
+        c.finish();
         return;
     }
 
@@ -1503,6 +2007,26 @@ fn run_inner(ctx: &mut Ctx, case: u64) {
                 }
             }
         }
+    }
+
+    // ---- the instantiations that are not mirrored: other weight types, usize, other hashers (laws against the i32 one)
+    for round in 0..3 {
+        let (m, order) = if round == 0 {
+            (wire.clone(), "nhpe".to_string())
+        } else {
+            let tw = *c.rng.pick(&[8u32, 16, 32, 64]);
+            let m = c.mutate_wire(&wire, tw);
+            (m, c.random_order())
+        };
+        if m.total() <= 80 && m.edges.len() <= 80 {
+            c.inst_laws(&m, &order);
+        }
+    }
+    if c.rng.chance(10) {
+        let n = wire.total().min(12);
+        let es: Vec<(usize, usize)> = wire.edges.iter().flatten().take(16).map(|e| (e.0 as usize, e.1 as usize)).collect();
+        let r = law_text(catch_msg(|| if directed { inst::float_law::<Directed>(n, &es) } else { inst::float_law::<Undirected>(n, &es) }));
+        c.ctx.line(&format!("law float-weights {} {}", n, es.len()), &r);
     }
 
     // ---- wrong types
@@ -1532,4 +2056,5 @@ fn run_inner(ctx: &mut Ctx, case: u64) {
             c.feed_any_bin(t, &m);
         }
     }
+    c.finish();
 }
